@@ -28,7 +28,7 @@ HARNESSES = {
     "st": {
         "module": "grpcgcp", "pkg": ".", "test": "TestVerifStream",
         "files": ["harness/grpcgcp/zz_verif_st_test.go", "harness/grpcgcp/zz_verif_pool_test.go"], "rewrite": "vclock",
-        "corpus_glob": "*.ops", "corpus_dirs": [],
+        "corpus_glob": "*.ops", "corpus_dirs": ["C12"],
         "episode_start": r"^st new",
         "tiers": {"quick": {"episodes": 400}, "thorough": {"episodes": 6000, "seeds": 4}},
     },
@@ -134,6 +134,7 @@ ST_TB = TB_COMMON + [
     "interleavings are at the granularity of lock regions: every cs.Lock()...cs.Unlock() region and the region cs.Lock()...cond.Wait() (which releases the mutex atomically) is one atomic step of the model; sync.Mutex / sync.Cond (Mesa semantics, Broadcast wakes every waiter) are modelled, not verified; memory-model effects inside a region are C10's business",
     "the harness realises interleavings at call granularity (a RecvMsg/Header is started, observed to block or return, then other calls are made); blocking is observed with a 15 ms / 3 s wait, decided by the harness's own record of creation / failure / cancellation",
     "one sender thread (gRPC forbids concurrent SendMsg on a stream), up to three receiver threads",
+    "the atomicity of the wake-up steps is tied to the code twice: per run the regenerated fact `every Broadcast directly follows an Unlock` (cond_broadcast_handshake), and the harness context `race`, which cancels the call's context from inside the waiter's own context check (while the waiter holds the mutex) so that a wake-up sent without the lock handshake is lost on the real code",
 ]
 
 GME_TB = TB_COMMON + [
@@ -176,8 +177,10 @@ PROPS = {
     "C12": {"harnesses": ["st"], "lake_targets": ["GcpVerif"],
             "theorems": [("GcpVerif.Proofs.Stream", "GcpVerif.Stream." + n) for n in
                          ["run_inv", "create_at_most_once", "recv_progress", "delegation_after_creation",
-                          "first_message_visible", "no_second_attempt", "recv_returns", "inv_step"]],
-            "leanchecker": ["GcpVerif.Proofs.Stream"],
+                          "first_message_visible", "no_second_attempt", "recv_returns", "inv_step",
+                          "recv_after_creation_delegates", "noStale_run"]] +
+                        [("GcpVerif.Proofs.Ties", "GcpVerif.Ties.cond_broadcast_handshake")],
+            "leanchecker": ["GcpVerif.Proofs.Stream", "GcpVerif.Proofs.Ties"],
             "trusted_base": ST_TB, "assumptions": []},
     "C17": {"harnesses": ["cfg"], "lake_targets": ["GcpVerif"],
             "theorems": [("GcpVerif.Proofs.Config", "GcpVerif.Config." + n) for n in
